@@ -79,7 +79,22 @@ def mandy_case(draw):
         names[0] = 'one'
     return {'d': d, 'variant': variant, 'phi': names, 'm': draw(st.sampled_from([2, 3, 4, 6, 9, 12])), 'add_one': draw(st.booleans()),
             'duplicate': draw(st.sampled_from([False, False, True])), 'seed': draw(gen.SEED), 'ydim': draw(st.sampled_from(['d'])),
-            'data_form': draw(c15.DATA_FORM), 'y_form': draw(Y_FORM)}
+            'data_form': draw(c15.DATA_FORM), 'y_form': draw(Y_FORM), 'tight_threshold': draw(st.sampled_from([False, False, True]))}
+
+
+def local_ratios(vals, m):
+    """singular-value ratios s/s[0] that the left-to-right sweep of pinv sees on the transformed data tensor built from the per-mode
+    value matrices vals[i] (n_i x m): core 0 is (1, n_0, 1, m), core i is 'diagonal' in the snapshot index.  Plain NumPy replay of
+    M_i[(r, k), j] = R[r, j] * vals_i[k, j],  M_i = U S V^H,  R <- S V^H."""
+    R = np.ones((1, m))
+    out = []
+    for v in vals:
+        M = (R[:, None, :] * v[None, :, :]).reshape(R.shape[0] * v.shape[0], m)
+        U, S, Vh = np.linalg.svd(M, full_matrices=False)
+        out.append(S / S[0] if S[0] > 0 else S)
+        keep = S > 1e-12 * S[0]
+        R = S[keep, None] * Vh[keep]
+    return out
 
 
 def body_mandy(c):
@@ -107,6 +122,15 @@ def body_mandy(c):
     deficient = bool(np.any(sv <= 1e-12 * sv[0])) or dup
     assume(spectra_ok(psi, nmodes, zero_allowed=True))
     th = 1e-9 if deficient else c.get('threshold', 0.0)
+    tight = False
+    if c.get('tight_threshold'):
+        # "thresholds below the smallest singular-value ratio": a threshold 10 % below the smallest non-zero ratio any sweep of the
+        # pseudoinverse sees (replayed in NumPy) cuts nothing but exact zeros, so the result is still the minimum-norm solution
+        ratios = np.concatenate(local_ratios(vals, m))
+        nz = ratios[ratios > 1e-12]
+        assume(len(nz) > 0 and nz.min() >= 1e-3)
+        th = 0.9 * float(nz.min())
+        tight = True
     # with threshold 0 the routine inverts every singular value it finds: require a spectrum without numerical zeros
     if th == 0:
         assume(spectra_ok(psi, nmodes, zero_allowed=False))
@@ -138,6 +162,8 @@ def body_mandy(c):
         lab.add('d1')
     if th:
         lab.add('threshold>0')
+    if tight:
+        lab.add('threshold_just_below_smallest_ratio')
     return lab | form_labels(c)
 
 
@@ -197,13 +223,34 @@ def arr_case(draw):
         ranks[i + 1] = min(ranks[i + 1], ranks[i] * n[i])
     for i in range(p - 1, -1, -1):          # and from the right: r_i <= n_i r_{i+1}
         ranks[i] = min(ranks[i], n[i] * ranks[i + 1])
-    return {'d': d, 'm': draw(st.sampled_from([3, 5, 8, 12])), 'phi': phi, 'ranks': ranks, 'seed': draw(gen.SEED), 'dy': draw(st.integers(1, 2)),
-            'repeats': draw(st.integers(1, 4)), 'exact': draw(st.booleans()), 'data_form': draw(c15.DATA_FORM), 'y_form': draw(Y_FORM)}
+    illc = draw(st.sampled_from([False, False, True]))
+    if illc:
+        # moderately ill-conditioned class: monomials on a short interval, many more snapshots than core unknowns
+        same = draw(st.booleans())       # every mode on one coordinate: strongly correlated factors
+        phi = [[{'family': 'monomial', 'index': 0 if same else draw(st.integers(0, d - 1)), 'exponent': 2 * e} for e in range(len(f))] for f in phi]
+    return {'d': d, 'm': draw(st.sampled_from([3, 5, 8, 12])) if not illc else draw(st.sampled_from([30, 60])), 'phi': phi, 'ranks': ranks,
+            'seed': draw(gen.SEED), 'dy': draw(st.integers(1, 2)), 'illcond': illc,
+            'repeats': draw(st.integers(1, 4)) if not illc else draw(st.sampled_from([2, 3, 4])), 'exact': draw(st.booleans()) and not illc,
+            'data_form': draw(c15.DATA_FORM), 'y_form': draw(Y_FORM)}
 
 
 def body_arr(c):
     x = c15.data(c)
+    illc = bool(c.get('illcond'))
     m = c['m']
+    if illc:
+        # shrink the data interval until the transformed data matrix has its smallest non-zero singular-value ratio between 3e-8
+        # and 1e-6 (deterministic in the case): cond(Psi) ~ 1e7, far from the 1e-13 cut-off but well inside the region where a
+        # less careful solve (normal equations, single precision, ...) breaks down
+        x = np.asarray(x, dtype=float)
+        for sc in (1.0, 0.7, 0.5, 0.35, 0.25, 0.18, 0.12, 0.08, 0.05):
+            xs = x * sc
+            vv = [np.array([[c15.ref_value(s_, xs[:, j]) for j in range(m)] for s_ in f]) for f in c['phi']]
+            sv = np.linalg.svd(c15.psi_ref(vv).reshape(-1, m), compute_uv=False)
+            nz = sv[sv > 1e-12 * sv[0]] / sv[0]
+            if 3e-8 < nz.min() < 1e-6:
+                break
+        x = xs
     rng = np.random.default_rng(c['seed'] + 1)
     phi = [[c15.make_fn(s) for s in f] for f in c['phi']]
     n = [len(f) for f in phi]
@@ -213,10 +260,18 @@ def body_arr(c):
     M = psi.reshape(-1, m)
     # conditioning guard: the micro least-squares problems inherit the spectrum of Psi; singular values that are neither
     # numerically zero nor well separated from zero make 'non-increasing up to rounding' meaningless
-    assume(spectra_ok(psi, p, zero_allowed=True))
+    if illc:
+        # wider band: ratios down to 1e-8 are admitted (the cut-off 1e-13 is still negligible against them); the descent slack
+        # below is 1e-5 ||y|| for this class (rounding times a condition number of up to 1e8)
+        shape = psi.shape
+        for k in range(1, p + 1):
+            sv = np.linalg.svd(psi.reshape(int(np.prod(shape[:k])), -1), compute_uv=False)
+            assume(sv[0] > 0 and not np.any((sv > 1e-12 * sv[0]) & (sv < 1e-8 * sv[0])))
+    else:
+        assume(spectra_ok(psi, p, zero_allowed=True))
     for v in vals:
         sv = np.linalg.svd(v, compute_uv=False)
-        assume(not np.any((sv > 1e-12 * sv[0]) & (sv < 1e-3 * sv[0])))
+        assume(not np.any((sv > 1e-12 * sv[0]) & (sv < (1e-6 if illc else 1e-3) * sv[0])))
     if c['exact']:
         # exactly fittable right-hand side: y = xi_true^T Psi with a low-rank coefficient tensor
         y = np.array([dense.contract([rng.standard_normal((c['ranks'][i], n[i], 1, c['ranks'][i + 1])) for i in range(p)]).reshape(-1) @ M
@@ -227,13 +282,18 @@ def body_arr(c):
     snap = build.snapshot(g)
     ynorm = max(np.linalg.norm(y), 1e-300)
 
+    nPsi = float(np.linalg.norm(M, 2))
+    xin = [0.0] * c['dy']          # largest coefficient norm seen per output
+
     def residuals(sol):
         out = []
         for k, t in enumerate(sol):
             require_consistent(t, 'consistent')
             require(t.row_dims == n and t.col_dims == [1] * p, 'dims', 'rows %s' % t.row_dims)
             require(list(t.ranks) == list(g.ranks), 'ranks_kept', 'ranks %s, guess had %s' % (t.ranks, g.ranks))
-            out.append(float(np.linalg.norm(dense.contract(t.cores).reshape(-1) @ M - y[k])))
+            xi = dense.contract(t.cores).reshape(-1)
+            xin[k] = max(xin[k], float(np.linalg.norm(xi)))
+            out.append(float(np.linalg.norm(xi @ M - y[k])))
         return out
 
     g0 = dense.contract(g.cores).reshape(-1)
@@ -244,7 +304,11 @@ def body_arr(c):
         build.require_unchanged(g, snap, 'initial guess of arr')
         res = residuals(sol)
         for k in range(c['dy']):
-            require(res[k] <= prev[k] + 1e-7 * ynorm, 'arr_descent',
+            # resolution of the harness' own residual evaluation: Xi^T Psi - y in floating point is only accurate to about
+            # eps ||Xi|| ||Psi|| (micro systems compressed onto small frames can be far worse conditioned than Psi, the
+            # coefficients then reach 1e12 and differences of 1e-5 between two such residuals are rounding of the oracle)
+            meas = 20 * 2.3e-16 * xin[k] * nPsi
+            require(res[k] <= prev[k] + (1e-5 if illc else 1e-7) * ynorm + meas, 'arr_descent',
                     'output %d: residual %.6e after %d sweeps, %.6e after %d' % (k, res[k], r, prev[k], r - 1))
         prev = res
     lab = {'arr', 'repeats%d' % c['repeats']}
@@ -258,6 +322,11 @@ def body_arr(c):
         lab.add('single_function_mode')
     if any(s_['family'] in c15.USER_FAMS for f in c['phi'] for s_ in f):
         lab.add('user_defined_function')
+    if illc:
+        lab.add('moderately_ill_conditioned')
+        cn = np.linalg.svd(M, compute_uv=False)
+        if cn[0] / cn[cn > 1e-12 * cn[0]].min() > 1e6:
+            lab.add('cond>1e6')
     return lab | form_labels(c)
 
 
@@ -269,8 +338,8 @@ def nt(labels):
 SUBCHECKS = [
     Sub('mandy', mandy_case(), body_mandy, nt, quick=400, thorough=4000, shards_quick=4,
         classes=['mandy_cm', 'mandy_fm', 'duplicated_snapshot', 'underdetermined', 'overdetermined', 'add_one_false', 'threshold>0', 'd1',
-                 'data_int', 'data_strided', 'y_int']),
+                 'data_int', 'data_strided', 'y_int', 'threshold_just_below_smallest_ratio']),
     Sub('kernel', kernel_case(), body_kernel, nt, quick=300, thorough=3000, classes=['kernel', 'several_outputs', 'singular_gram', 'regular_gram', 'single_function_mode', 'user_defined_function']),
-    Sub('arr', arr_case(), body_arr, nt, quick=150, thorough=1500, shards_quick=6, budget_quick=150,
-        classes=['arr', 'several_outputs', 'exactly_fittable', 'repeats1', 'repeats4', 'single_function_mode']),
+    Sub('arr', arr_case(), body_arr, nt, quick=400, thorough=3000, shards_quick=8, budget_quick=150,
+        classes=['arr', 'several_outputs', 'exactly_fittable', 'repeats1', 'repeats4', 'single_function_mode', 'moderately_ill_conditioned', 'cond>1e6']),
 ]
